@@ -1234,7 +1234,9 @@ ecdsa_sign(ec_curve_p curve, bn_p hash, bn_p priv_key, bn_p rnd,
 	    &curve->n_mod_rd_data));
 	/* R = rnd*G */
 	/* Slow operation. */
-	ec_point_mult_bp(sign_s, curve, &R);
+	BN_RET_ON_ERR(ec_point_mult_bp(sign_s, curve, &R));
+	if (0 != R.infinity) /* rnd = 0: no signature. */
+		return (-1);
 	/* r = Rx mod n */
 	BN_RET_ON_ERR(bn_mod(&R.x, &curve->n, &curve->n_mod_rd_data));
 	if (0 != bn_is_zero(&R.x))
